@@ -17,6 +17,10 @@ type Str struct {
 	// safe" list of C12 names this channel; the token is used for identity
 	// and difference only.
 	Neutral bool
+	// Gone: the constructor discards this value (an unsafe argument of
+	// WithSafeDetails is redacted away at construction): it is visible
+	// nowhere, and must in particular never show up in a PII-free output.
+	Gone bool
 }
 
 // ArgKind is the kind of a printf argument.
@@ -28,12 +32,19 @@ const (
 	ArgSafeStr
 	ArgInt
 	ArgErr // an error argument: becomes a hidden secondary error
+	// ArgSafeFmt: a value of an application type implementing
+	// redact.SafeFormatter, with a safe part (S) and an unsafe part (S2).
+	ArgSafeFmt
+	// ArgStringer: a value of an application type whose String() method
+	// returns S (unsafe).
+	ArgStringer
 )
 
 // Arg is one printf argument of a *f constructor.
 type Arg struct {
 	Kind ArgKind
 	S    Str
+	S2   Str // ArgSafeFmt: the unsafe part
 	N    int
 	Hid  int // index in Node.Hid for ArgErr
 	// Verb is the printf verb used for this argument ("" = the default:
@@ -86,6 +97,7 @@ type Token struct {
 	UnderMark   bool // sits in (or under) a Mark reference: only its message survives, as unsafe
 	UnderHidden bool // sits behind a barrier / secondary error / error argument
 	UnderMulti  bool // sits in a branch of a multi-cause error
+	Gone        bool // discarded by the constructor (see Str.Gone)
 	Kind        Kind
 }
 
@@ -96,20 +108,25 @@ func (n *Node) Tokens() []Token {
 	walk = func(n *Node, underMark, underHidden, underMulti bool) {
 		add := func(s Str) {
 			if s.Tok != "" {
-				out = append(out, Token{Tok: s.Tok, Safe: s.Safe, Neutral: s.Neutral, UnderMark: underMark, UnderHidden: underHidden, UnderMulti: underMulti, Kind: n.K})
+				out = append(out, Token{Tok: s.Tok, Safe: s.Safe, Neutral: s.Neutral, Gone: s.Gone, UnderMark: underMark, UnderHidden: underHidden, UnderMulti: underMulti, Kind: n.K})
 			}
 		}
 		for _, s := range n.S {
 			add(s)
 		}
 		for _, a := range n.A {
-			if a.Kind == ArgUnsafeStr || a.Kind == ArgSafeStr {
+			switch a.Kind {
+			case ArgUnsafeStr, ArgSafeStr, ArgStringer:
 				add(a.S)
+			case ArgSafeFmt:
+				add(a.S)
+				add(a.S2)
 			}
 		}
 		for _, t := range n.T {
 			add(t.Key)
-			if t.Val.Kind == ArgUnsafeStr || t.Val.Kind == ArgSafeStr {
+			switch t.Val.Kind {
+			case ArgUnsafeStr, ArgSafeStr, ArgStringer:
 				add(t.Val.S)
 			}
 		}
@@ -236,6 +253,10 @@ func (n *Node) Expr() string {
 				item(a.Verb + fmt.Sprint(a.N))
 			case ArgErr:
 				item(fmt.Sprintf("%serr#%d", a.Verb, a.Hid))
+			case ArgSafeFmt:
+				item(fmt.Sprintf("%sSafeFormatter{safe:%q unsafe:%q}", a.Verb, a.S.V, a.S2.V))
+			case ArgStringer:
+				item(fmt.Sprintf("%sStringer(%q)", a.Verb, a.S.V))
 			}
 		}
 		for _, t := range n.T {
@@ -244,6 +265,8 @@ func (n *Node) Expr() string {
 				item(fmt.Sprintf("tag{%q=%q}", t.Key.V, t.Val.S.V))
 			case ArgSafeStr:
 				item(fmt.Sprintf("tag{%q=Safe(%q)}", t.Key.V, t.Val.S.V))
+			case ArgStringer:
+				item(fmt.Sprintf("tag{%q=Stringer(%q)}", t.Key.V, t.Val.S.V))
 			default:
 				item(fmt.Sprintf("tag{%q=%d}", t.Key.V, t.Val.N))
 			}
